@@ -1183,6 +1183,8 @@ func genProto() string {
 	b.WriteString("def env : Env := stubs ++ messages\n\n")
 	b.WriteString("/-- Model bytes for one line of the differential probe (see `runProtoProbeWith`). -/\n")
 	b.WriteString("def runProtoProbe (line : String) : String := runProtoProbeWith env line\n\n")
+	b.WriteString("/-- Verdict for one line of the decode probe (see `runProtoDecodeProbeWith`). -/\n")
+	b.WriteString("def runProtoDecodeProbe (line : String) : String := runProtoDecodeProbeWith env line\n\n")
 	b.WriteString("end Hub.Generated.Proto\n")
 	return b.String()
 }
